@@ -126,8 +126,59 @@ func analyze(cl *cluster) *analysis {
 		a.add("node-died:fatal-log:"+reNum.ReplaceAllString(msg[len(msg)-1], "N"), f, map[string]any{"fatal": f})
 	}
 
-	// (1) agreement: no two nodes hold different hashes at one height
+	// (1a) agreement at acceptance time: every successful AddBlock of the run
+	// was recorded as (node, height, hash) when it happened, so that a fork is
+	// seen even if the minority ledger could not be compared at the end
 	diverged := uint32(0)
+	acceptedAt := map[uint32]map[string][]int{}
+	var forkHeights []uint32
+	for _, e := range rec.events {
+		if e.Err != "" {
+			continue
+		}
+		if acceptedAt[e.Height] == nil {
+			acceptedAt[e.Height] = map[string][]int{}
+		}
+		if len(acceptedAt[e.Height][e.Hash]) == 0 && len(acceptedAt[e.Height]) == 1 {
+			forkHeights = append(forkHeights, e.Height)
+		}
+		acceptedAt[e.Height][e.Hash] = append(acceptedAt[e.Height][e.Hash], e.Node)
+		a.obs["accepted_node_height_hash_records"]++
+	}
+	slices.Sort(forkHeights)
+	forkReported := map[uint32]bool{}
+	for _, h := range forkHeights {
+		if diverged == 0 {
+			diverged = h
+		}
+		forkReported[h] = true
+		a.add("safety:different-blocks-at-one-height", fmt.Sprintf("height %d: honest nodes accepted different blocks (hash -> accepting nodes): %v", h, acceptedAt[h]),
+			map[string]any{"height": h, "accepted_by": acceptedAt[h], "heights": hs, "commits": commitsWitness(h), "events": eventsAt(h), "commits_broadcast_at_height": sentCommitsAt(rec, h)})
+		break // later heights of the two branches differ as a consequence
+	}
+
+	// (1b) a validator signs (commits) one block per height: two Commit
+	// payloads of one node at one height with different views or signatures
+	// mean that it gave its signature to two different blocks
+	for node := 0; node < n; node++ {
+		var heights []uint32
+		for h := range rec.sentCommits[node] {
+			heights = append(heights, h)
+		}
+		slices.Sort(heights)
+		for _, h := range heights {
+			cs := rec.sentCommits[node][h]
+			a.obs["validator_height_commits_checked_for_double_signing"]++
+			if len(cs) > 1 {
+				a.add("safety:validator-committed-two-different-blocks-at-one-height",
+					fmt.Sprintf("node %d broadcast %d different Commit payloads for height %d (views %v): it signed more than one block of that height", node, len(cs), h, commitViewsOf(cs)),
+					map[string]any{"node": node, "height": h, "commits_of_node": cs, "commits_broadcast_at_height": sentCommitsAt(rec, h), "accepted_by": acceptedAt[h], "blocks_committed": commitsWitness(h)})
+				break
+			}
+		}
+	}
+
+	// (1) agreement: no two nodes hold different hashes at one height
 	for h := uint32(1); h <= a.maxH; h++ {
 		var ref util.Uint256
 		holders := 0
@@ -147,7 +198,9 @@ func analyze(cl *cluster) *analysis {
 			holders++
 			a.obs["node_height_hashes_compared"]++
 		}
-		if !same {
+		if !same && (forkReported[h] || (diverged != 0 && diverged < h)) {
+			// already reported from the acceptance records (or a consequence of it)
+		} else if !same {
 			if diverged == 0 {
 				diverged = h
 			}
@@ -397,6 +450,23 @@ func analyze(cl *cluster) *analysis {
 		}
 	}
 	return a
+}
+
+func sentCommitsAt(rec *recorder, h uint32) map[string][]sentCommit {
+	r := map[string][]sentCommit{}
+	for node, m := range rec.sentCommits {
+		if len(m[h]) > 0 {
+			r[fmt.Sprintf("node%d", node)] = m[h]
+		}
+	}
+	return r
+}
+
+func commitViewsOf(cs []sentCommit) (r []byte) {
+	for _, c := range cs {
+		r = append(r, c.View)
+	}
+	return
 }
 
 // pendingTxs lists transactions pooled at one of the holders that are still
